@@ -650,11 +650,12 @@ impl CodegenContext {
                     let extracted_evaluator = self.get_evaluator().snapshot();
 
                     let interpolated_failure_message = if let Some(fm) = &failure_message {
-                        Some(
-                            self.get_evaluator()
-                                .interpolate(fm, true)
-                                .map_err(|e| self.map_evaluation_error(e))?,
-                        )
+                        let ctx = self.get_evaluator();
+                        let message = ctx
+                            .interpolate(fm, true)
+                            .map_err(|e| self.map_evaluation_error(e))?;
+                        self.record_usages(ctx.usages());
+                        Some(message)
                     } else {
                         None
                     };
@@ -821,10 +822,14 @@ impl CodegenContext {
             }
             Token::File { filename, .. } => {
                 let span = filename.lquote.span;
-                let evaluated_filename = self
-                    .get_evaluator()
+                let ctx = self.get_evaluator();
+                let evaluated_filename = ctx
                     .interpolate(filename, true)
                     .map_err(|e| self.map_evaluation_error(e))?;
+                // (a name in the filename that is not known yet: nothing to read in this pass)
+                if !self.record_usages(ctx.usages()) {
+                    return Ok(());
+                }
                 let source_file: PathBuf = self.tree.code_map.look_up_span(span).file.name().into();
                 let filename = match source_file.parent() {
                     Some(parent) => parent.join(&evaluated_filename),
@@ -1376,24 +1381,33 @@ impl CodegenContext {
             .evaluate_expression(expr, track_usage)
             .map_err(|e| self.map_evaluation_error(e))?;
         if track_usage {
-            for usage in ctx.usages() {
-                self.analysis.add_symbol_usage(
-                    &self.symbols,
-                    self.current_scope_nx,
-                    &usage.path.data,
-                    usage.path.span,
-                );
-
-                if usage.symbol_index.is_none() {
-                    self.undefined.insert(UndefinedSymbol {
-                        scope_nx: self.current_scope_nx,
-                        id: usage.path.data,
-                        span: Some(usage.path.span),
-                    });
-                }
-            }
+            self.record_usages(ctx.usages());
         }
         Ok(result)
+    }
+
+    /// Registers what an evaluator looked up: every usage for the analysis, and what it could not find as undefined.
+    /// Returns whether everything was found.
+    fn record_usages(&mut self, usages: Vec<SymbolUsage>) -> bool {
+        let mut complete = true;
+        for usage in usages {
+            self.analysis.add_symbol_usage(
+                &self.symbols,
+                self.current_scope_nx,
+                &usage.path.data,
+                usage.path.span,
+            );
+
+            if usage.symbol_index.is_none() {
+                complete = false;
+                self.undefined.insert(UndefinedSymbol {
+                    scope_nx: self.current_scope_nx,
+                    id: usage.path.data,
+                    span: Some(usage.path.span),
+                });
+            }
+        }
+        complete
     }
 
     pub fn evaluate_expression_as_i64(
